@@ -127,6 +127,17 @@ def run(prop, tier, seed):
         # extra: interactive entry with a very long run of rejected answers before the accepted ones
         for fl in ([], ["-2"], ["-3"], ["-4"]):
             items.append({"args": [esc(a) for a in fl], "stdin": [esc(a) for a in ["junk"] * 1300 + (UNIVERSAL * 40)[:400]]})
+        # extra: the near-miss corpus of the constructors (fault pairs, format / pattern fragments inside prefix, metric and value, quoting
+        # wrappers, look-alike characters, grammar tokens at unexpected places) as VECTOR under the flag of the version it was derived from:
+        # whatever the library says about them, the calculator prints that and exits with status 0
+        nm = [t for t in corpus.fragment_sweep(rnd) + corpus.wrapper_sweep(rnd) + rnd.sample(corpus.confusable_sweep(rnd), 120) + corpus.fault_pairs(rnd, 1)
+              if t and not t.startswith("-") and "\x00" not in t and len(t) < 3000]
+        if not big and len(nm) > 900:
+            nm = rnd.sample(nm, 900)
+        for t in nm:
+            fl = ["-4"] if "CVSS:4" in t else (["-3"] if "CVSS:3" in t else ["-2"])
+            a_ = rnd.choice([fl, fl + ["-j"], fl]) + ["-v", t]
+            items.append({"args": [esc(a) for a in a_], "argv": [esc(a) for a in a_], "stdin": []})
         # extra: interactive entry where every accepted answer is preceded by answers that are no legal value of anything (fields and
         # chunks of vectors, several colons, pattern / format characters, look-alike letters, control characters, very long lines)
         for fl in ([], ["-2"], ["-3"], ["-4"], ["-a"], ["-4", "-a", "-n"], ["-2", "-a", "-j"], ["-3", "-a"]):
